@@ -9,7 +9,7 @@
 // Environment: VERIF_SEED, VERIF_N (number of generated cases), VERIF_OUT (trace path), VERIF_OPS (file with
 // cases given as gops, separated by lines "case ..."; replaces the generator), VERIF_CORPUS (directory with such
 // files, replayed before the generated cases), VERIF_MODE (plain|nested|long: whether generated callbacks re-enter
-// Express; long = nested with 40-140 operations per history).
+// Express; long = nested with 40-140 operations per history; fire; reply = the face answers during Send).
 package engine
 
 import (
@@ -49,22 +49,25 @@ type nestSpec struct {
 }
 
 type gop struct {
-	kind   string // express data nack adv attach detach interest reply
-	name   []int
-	cbp    bool
-	digK   byte // '-' none, 'd' digest of Data(digName,digCid), 'b' bogus
-	digNm  []int
-	digCid int
-	life   int // ms, -1 = default lifetime
-	nest   *nestSpec
-	cid    int
-	reason int
-	ms     int
-	hid    int
-	iid    int
-	tok    string // hex or "-"
-	delay  int    // data/nack: the first timer cancel made while the packet is processed takes this many ms (0 = none)
-	auto   bool   // appended by the harness (run-down of all timers), not part of the generated history
+	kind     string // express data nack adv attach detach interest reply
+	name     []int
+	cbp      bool
+	digK     byte // '-' none, 'd' digest of Data(digName,digCid), 'b' bogus
+	digNm    []int
+	digCid   int
+	life     int // ms, -1 = default lifetime
+	nest     *nestSpec
+	cid      int
+	reason   int
+	ms       int
+	hid      int
+	iid      int
+	tok      string // hex or "-"
+	replyK   byte   // express: '-' none, 'd' Data (replyNm, replyCid) / 'n' Nack (reason replyCid) fed back by the face during Send
+	replyNm  []int
+	replyCid int
+	delay    int  // data/nack: the first timer cancel made while the packet is processed takes this many ms (0 = none)
+	auto     bool // appended by the harness (run-down of all timers), not part of the generated history
 }
 
 func nameTxt(n []int) string {
@@ -125,7 +128,13 @@ func (g gop) String() string {
 		if g.nest != nil {
 			nest = fmt.Sprintf("%s:%s:%d:%d", nameTxt(g.nest.name), b01(g.nest.cbp), g.nest.life, g.nest.depth)
 		}
-		return fmt.Sprintf("express n=%s cbp=%s dig=%s life=%s nest=%s", nameTxt(g.name), b01(g.cbp), dig, lifeTxt(g.life), nest)
+		rep := ""
+		if g.replyK == 'd' {
+			rep = fmt.Sprintf(" reply=d:%s:%d", nameTxt(g.replyNm), g.replyCid)
+		} else if g.replyK == 'n' {
+			rep = fmt.Sprintf(" reply=n:%d", g.replyCid)
+		}
+		return fmt.Sprintf("express n=%s cbp=%s dig=%s life=%s nest=%s%s", nameTxt(g.name), b01(g.cbp), dig, lifeTxt(g.life), nest, rep)
 	case "data":
 		if g.delay > 0 {
 			return fmt.Sprintf("data n=%s cid=%d delay=%d", nameTxt(g.name), g.cid, g.delay)
@@ -219,6 +228,15 @@ func parseGop(line string) (gop, bool) {
 			g.auto = v == "1"
 		case "delay":
 			g.delay, _ = strconv.Atoi(v)
+		case "reply":
+			p := strings.Split(v, ":")
+			if len(p) == 3 && p[0] == "d" {
+				g.replyK, g.replyNm = 'd', parseName(p[1])
+				g.replyCid, _ = strconv.Atoi(p[2])
+			} else if len(p) == 2 && p[0] == "n" {
+				g.replyK = 'n'
+				g.replyCid, _ = strconv.Atoi(p[1])
+			}
 		}
 	}
 	switch g.kind {
@@ -236,15 +254,28 @@ var genericComps = []string{"", "a", "b", "c", "d", "e", "f", "g", "h", "i"}
 
 // The dummy face is not safe for concurrent Send (it appends to a slice); Express calls made from the callbacks of
 // timers that fire at the same instant are concurrent. The real faces serialise their writes; so does this wrapper.
+//
+// Replying face: Send may hand a scripted answer (Data or Nack) back to the engine before it returns — what an in-process
+// pipe between two engines or a local cache does, and what a reader goroutine that wins the race amounts to. Legal for
+// the face interface; the Interest must therefore be in the PIT before it is handed to the face.
 type lockedFace struct {
 	*dummy.DummyFace
-	mu sync.Mutex
+	mu    sync.Mutex
+	reply []byte // fed back into the engine during the next Send
+	fed   bool
 }
 
 func (f *lockedFace) Send(pkt enc.Wire) error {
 	f.mu.Lock()
-	defer f.mu.Unlock()
-	return f.DummyFace.Send(pkt)
+	err := f.DummyFace.Send(pkt)
+	reply := f.reply
+	f.reply = nil
+	f.mu.Unlock()
+	if reply != nil && err == nil {
+		f.fed = true
+		_ = f.DummyFace.FeedPacket(reply)
+	}
+	return err
 }
 
 type world struct {
@@ -622,7 +653,37 @@ func runCase(t *testing.T, ops []gop, cfg string) []string {
 			var opTxt string
 			switch g.kind {
 			case "express":
+				replyLine := ""
+				if g.replyK == 'd' && len(g.replyNm) > 0 {
+					wire := dataWire(g.replyNm, g.replyCid)
+					sum := sha256.Sum256(wire)
+					dd := enc.Component{Typ: enc.TypeImplicitSha256DigestComponent, Val: sum[:]}
+					replyLine = fmt.Sprintf("nop data %s %d", w.keysOf(mkName(g.replyNm)), w.key(dd))
+					w.face.reply = wire
+				} else if g.replyK == 'n' && (len(g.name) > 0 || g.digK != '-') {
+					fn := mkName(g.name)
+					if g.digK != '-' {
+						fn = append(fn, digestComp(g.digK, g.digNm, g.digCid))
+					}
+					lt := 4 * time.Second
+					enci, err := spec.Spec{}.MakeInterest(fn, &ndn.InterestConfig{Lifetime: &lt}, nil, nil)
+					if err != nil {
+						panic(err)
+					}
+					pkt := &spec.Packet{LpPacket: &spec.LpPacket{Nack: &spec.NetworkNack{Reason: uint64(g.replyCid)}, Fragment: enci.Wire}}
+					e := spec.PacketEncoder{}
+					e.Init(pkt)
+					replyLine = fmt.Sprintf("nop nack %s %d", w.keysOf(fn), g.replyCid)
+					w.face.reply = e.Encode(pkt).Join()
+				}
+				w.face.fed = false
 				opTxt = w.express(g.name, g.cbp, g.digK, g.digNm, g.digCid, g.life, g.nest)
+				w.face.reply = nil
+				if w.face.fed && replyLine != "" {
+					w.mu.Lock()
+					w.nested = append([]string{replyLine}, w.nested...)
+					w.mu.Unlock()
+				}
 			case "data":
 				wire := dataWire(g.name, g.cid)
 				sum := sha256.Sum256(wire)
@@ -812,6 +873,7 @@ type genr struct {
 	nested bool
 	long   bool
 	fire   bool
+	reply  bool
 }
 
 func (g *genr) pick(xs []int) int { return xs[g.r.Intn(len(xs))] }
@@ -936,6 +998,24 @@ func (g *genr) genCase() []gop {
 				}
 				if len(o.nest.name) == 0 {
 					o.nest.name = []int{1}
+				}
+			}
+			if g.reply && len(o.name) > 0 && g.r.Intn(2) == 0 {
+				switch g.r.Intn(5) {
+				case 0: // Nack for this very Interest
+					o.replyK, o.replyCid = 'n', g.pick([]int{50, 100, 150})
+				case 1: // Data for another pending name
+					o.replyK, o.replyNm, o.replyCid = 'd', related(), g.r.Intn(3)
+				default: // Data for this very Interest
+					o.replyK, o.replyNm, o.replyCid = 'd', o.name, g.r.Intn(3)
+					if o.digK == 'd' {
+						o.replyNm, o.replyCid = o.digNm, o.digCid
+					} else if o.cbp && g.r.Intn(2) == 0 {
+						o.replyNm = append(append([]int{}, o.name...), 1+g.r.Intn(alpha))
+					}
+				}
+				if o.replyK == 'd' && len(o.replyNm) == 0 {
+					o.replyK = '-'
 				}
 			}
 			expressed = append(expressed, o.name)
@@ -1159,7 +1239,7 @@ func TestTrace(t *testing.T) {
 			}
 		}
 		mode := os.Getenv("VERIF_MODE")
-		g := &genr{r: rand.New(rand.NewSource(seed)), nested: mode == "nested" || mode == "long", long: mode == "long", fire: mode == "fire"}
+		g := &genr{r: rand.New(rand.NewSource(seed)), nested: mode == "nested" || mode == "long", long: mode == "long", fire: mode == "fire", reply: mode == "reply"}
 		for i := 0; i < n; i++ {
 			cases = append(cases, g.genCase())
 			titles = append(titles, fmt.Sprintf("gen-%d-%d", seed, i))
